@@ -109,6 +109,7 @@ inductive Diff where
   | renameSheet (index : Nat) (old new : String)
   | newSheet (index : Nat) (name : String)
   | deleteSheet (sheet : Nat) (oldData : Sheet)
+  | deleteDefinedName (name : String) (scope : Nat) (old : String)
   | setColumnWidth (sheet : Nat) (column : Int) (old new : Int)
   | setRowHeight (sheet : Nat) (row : Int) (old new : Int)
   | setColumnHidden (sheet : Nat) (column : Int) (old new : Bool)
@@ -255,11 +256,37 @@ def mInsertSheet (env : Env) (b : Book) (name : String) (index : Nat) (id : Opti
       | none => newSheetId b
     .ok { b with sheets := b.sheets.insertIdx index (emptySheet name sid) }
 
-/-- models `new_empty.rs::delete_sheet` -/
+/-- the defined names that are not local to the sheet with that id -/
+def namesNotOf (names : List DefName) (sid : Option Nat) : List DefName :=
+  names.filter fun d => d.sheetId != sid
+
+/-- models `new_empty.rs::delete_sheet` (repaired, F27a: the names local to the sheet go with it) -/
 def mDeleteSheet (b : Book) (index : Nat) : Except Err Book :=
   if b.sheets.length = 1 then .error .onlySheet
   else if index ≥ b.sheets.length then .error .indexRange
-  else .ok { b with sheets := b.sheets.eraseIdx index }
+  else .ok { b with sheets := b.sheets.eraseIdx index,
+                    names := namesNotOf b.names ((b.sheets[index]?).map (·.id)) }
+
+/-- models `model.rs::delete_defined_name` for a sheet-local name, on the attribute model
+    (the last entry with that spelling, ignoring case, and that sheet id) -/
+def mDeleteDefinedName (env : Env) (b : Book) (name : String) (scope : Nat) : Except Err Book :=
+  match b.sheets[scope]? with
+  | none => .error .invalidSheet
+  | some sh =>
+    let hit := fun (d : DefName) => env.upper d.name == env.upper name && d.sheetId == some sh.id
+    match (b.names.zipIdx.filter fun p => hit p.1).getLast? with
+    | none => .error .invalidName
+    | some p => .ok { b with names := b.names.eraseIdx p.2 }
+
+/-- models `model.rs::new_defined_name` for a sheet-local name, on the attribute model (the
+    identifier and formula checks passed when the name was first created) -/
+def mNewDefinedName (env : Env) (b : Book) (name : String) (scope : Nat) (formula : String) : Except Err Book :=
+  match b.sheets[scope]? with
+  | none => .error .invalidSheet
+  | some sh =>
+    if b.names.any fun d => env.upper d.name == env.upper name && d.sheetId == some sh.id
+    then .error .duplicateName
+    else .ok { b with names := b.names ++ [⟨name, formula, some sh.id⟩] }
 
 /-- models `model.rs::get_column_width` → `worksheet.rs::get_column_width` (0 when hidden) -/
 def mGetColumnWidth (b : Book) (sheet : Nat) (c : Int) : Except Err Int :=
@@ -340,6 +367,7 @@ def fwd1 (env : Env) (b : Book) : Diff → Except Err Book
   | .renameSheet i _ new => mRenameSheet env b i new
   | .newSheet i name => mInsertSheet env b name i none
   | .deleteSheet i _ => mDeleteSheet b i
+  | .deleteDefinedName name scope _ => mDeleteDefinedName env b name scope
   | .setColumnWidth sheet c _ new => mSetColumnWidth b sheet c new
   | .setRowHeight sheet r _ new => mSetRowHeight b sheet r new
   | .setColumnHidden sheet c _ new => mSetColumnHidden b sheet c new
@@ -371,6 +399,7 @@ def back1 (env : Env) (b : Book) : Diff → Except Err Book
             rowAt := old.rowAt, colAt := old.colAt,
             grid := old.grid, frozenCols := old.frozenCols, frozenRows := old.frozenRows,
             state := old.state, color := old.color })
+  | .deleteDefinedName name scope old => mNewDefinedName env b name scope old
   | .setColumnWidth sheet c old _ => mSetColumnWidth b sheet c old
   | .setRowHeight sheet r old _ => mSetRowHeight b sheet r old
   | .setColumnHidden sheet c old _ => mSetColumnHidden b sheet c old
@@ -488,6 +517,12 @@ def newSheet (env : Env) (b : Book) : Out :=
   let r := mNewSheet env b
   done r.1 [.newSheet r.2.2 r.2.1]
 
+/-- the diffs `common.rs::delete_sheet` records for the names local to the sheet, in front of the
+    `DeleteSheet` diff: undo (back to front) re-creates them once the sheet is back, redo deletes
+    them while the sheet still exists -/
+def localNameDiffs (b : Book) (sheet : Nat) (sid : Nat) : List Diff :=
+  (b.names.filter fun d => d.sheetId == some sid).map fun d => .deleteDefinedName d.name sheet d.formula
+
 /-- models `common.rs::delete_sheet` -/
 def deleteSheet (b : Book) (sheet : Nat) : Out :=
   match getSheet b sheet with
@@ -495,7 +530,7 @@ def deleteSheet (b : Book) (sheet : Nat) : Out :=
   | .ok s =>
     match mDeleteSheet b sheet with
     | .error e => fail b e
-    | .ok b' => done b' [.deleteSheet sheet s]
+    | .ok b' => done b' (localNameDiffs b sheet s.id ++ [.deleteSheet sheet s])
 
 /-- the result of a `for` loop with `?` inside: the (possibly partially mutated) book, the diffs
     collected so far, and the error that stopped it -/
